@@ -96,6 +96,16 @@ def gen_op(rng, kind):
         a = {'id': _edge(rng, 0, 255, [0, 15, 16, 240, 255, 127, 128]),
              'sprite': _sprite_data(rng),
              'as_bytearray': rng.random() < 0.3}
+        if rng.random() < 0.07:
+            # a whole sheet (or half of one) in one call, every pixel opaque:
+            # kept as (seed, width, height) and expanded by the executor
+            a['sprite'] = {'$rows': [rng.randint(1, 10**9),
+                                     rng.choice([128, 128, 128, 127, 129]),
+                                     rng.choice([128, 128, 64, 127, 129])]}
+            a['id'] = rng.choice([0, 0, 0, 128, 1])
+            a['as_bytearray'] = rng.random() < 0.7
+            if rng.random() < 0.8:
+                return {'op': kind, 'args': a}
         if rng.random() < 0.6:
             a['tile_x_offset'] = rng.choice(
                 [0, 1, 3, 7, 8, 9, rng.randint(0, 130)])
@@ -148,6 +158,10 @@ def gen_op(rng, kind):
              'tile_y_offset': rng.choice([0, 0, 1, 4, 7])}
         if rng.random() < 0.5:
             a['dest'] = a['id']          # overlapping copy
+        if rng.random() < 0.1:
+            # the whole sheet read and written back in one piece
+            a = {'id': 0, 'tile_width': 16, 'tile_height': 16, 'dest': 0,
+                 'tile_x_offset': 0, 'tile_y_offset': 0}
     elif kind == RELOAD_OP:
         a = {'fmt': rng.choice(['png', 'png', 'p8'])}
     elif kind == DEEPCOPY_OP:
@@ -218,6 +232,8 @@ def gen_op(rng, kind):
         a = {'start_addr': s, 'len': e - s, 'data_seed': rng.randint(1, 10**9),
              'as_bytearray': rng.random() < 0.3,
              'positional': rng.random() < 0.5}
+        if rng.random() < 0.1:
+            a['as_memoryview'] = True
         if rng.random() < 0.08:
             # the payload is what to_bytes() of one of the cart's own
             # sections returns, written somewhere it overlaps or follows
@@ -229,6 +245,17 @@ def gen_op(rng, kind):
             s = min(s, 0x4300 - size)
             a = {'start_addr': s, 'len': size, 'own_section': sec,
                  'positional': rng.random() < 0.5}
+            if rng.random() < 0.5:
+                # ... or a memoryview of a part of that live buffer, written
+                # where it overlaps its own source across a region boundary
+                ln = min(size, rng.choice([4, 16, 32, 64, 512]))
+                lo = rng.choice([size - ln, size - ln, 0,
+                                 rng.randint(0, size - ln)])
+                s = base + lo + rng.choice([-ln // 2, ln // 2, ln // 2, 1,
+                                            -1, ln])
+                s = max(0, min(s, 0x4300 - ln))
+                a.update({'start_addr': s, 'len': ln,
+                          'own_view': [lo, lo + ln]})
     else:
         raise core.HarnessError(kind)
     if kind != RAW_OP and rng.random() < 0.5:
@@ -263,7 +290,8 @@ def gen_init(rng):
                                                     0xf0, 0x40, 1])}] +
             [rng.randint(1, 10**9)] * 4)
     init = {'mode': mode, 'regions': regions,
-            'version': rng.choice([8, 16, 33]),
+            'version': rng.choice([8, 16, 33, 33, 0, 4, 5, 15, 41]),
+            'warnings': rng.choice(['default'] * 3 + ['error']),
             'bystander': rng.choice(['fresh', 'fresh', 'clone'])}
     if mode == 'p8':
         order = ['gfx', 'label', 'gff', 'map', 'sfx', 'music']
@@ -436,6 +464,8 @@ def _model(m, op, a):
             sec = a['own_section']
             base = refcodec.REGION_ADDR[sec]
             data = bytes(m.m[base:base + refcodec.REGION_SIZE[sec]])
+            if a.get('own_view'):
+                data = data[a['own_view'][0]:a['own_view'][1]]
         else:
             data = core.rnd_bytes(a['data_seed'], a['len'])
         return None, not m.write_cart_data(data, a['start_addr'])
@@ -547,10 +577,14 @@ def _real(g, op, a):
     if op == RAW_OP:
         if a.get('own_section'):
             data = getattr(g, a['own_section']).to_bytes()
+            if a.get('own_view'):
+                data = memoryview(data)[a['own_view'][0]:a['own_view'][1]]
         else:
             data = core.rnd_bytes(a['data_seed'], a['len'])
         if a.get('as_bytearray') and not a.get('own_section'):
             data = bytearray(data)
+        if a.get('as_memoryview') and not a.get('own_section'):
+            data = memoryview(bytearray(data))
         if a.get('positional', True):
             return g.write_cart_data(data, a['start_addr'])
         return g.write_cart_data(data=data, start_addr=a['start_addr'])
@@ -596,7 +630,34 @@ POST_WRITE_PROBES = (
 )
 
 
+def _expand(sc):
+    """Scenario as the executor and the model use it: compact row
+    descriptions written out."""
+    ops = []
+    for o in sc['ops']:
+        spr = o['args'].get('sprite')
+        if isinstance(spr, dict):
+            seed, wd, ht = spr['$rows']
+            data = core.rnd_bytes(seed, wd * ht)
+            o = dict(o, args=dict(o['args'], sprite=[
+                [data[r * wd + c] & 15 for c in range(wd)]
+                for r in range(ht)]))
+        ops.append(o)
+    return dict(sc, ops=ops)
+
+
 def execute(sc):
+    import warnings
+    sc = _expand(sc)
+    with warnings.catch_warnings():
+        if sc['init'].get('warnings') == 'error':
+            # a caller that runs with warnings promoted to errors (python -W
+            # error, a test suite's filterwarnings=error)
+            warnings.simplefilter('error')
+        return _execute(sc)
+
+
+def _execute(sc):
     res = core.new_result()
     ev = res['events']
     with world.World() as w:
@@ -803,6 +864,23 @@ def execute(sc):
                                               _brief(_norm(r2)),
                                               _brief(_norm(m2))), step)
                             break
+            if op in (DEEPCOPY_OP, RELOAD_OP):
+                # the history continues on another Game object
+                label0 = bytes(g.label._data) if getattr(
+                    g, 'label', None) else None
+            elif outcome == 'ok' and label0 is not None and \
+                    getattr(g, 'label', None) and \
+                    bytes(g.label._data) != label0:
+                # the label is a sixth buffer of the same kind as the sprite
+                # sheet; no accessor and no cart address reaches it
+                outcome = 'label-modified'
+                core.violation(
+                    res, prop, '%s:label-modified' % prop,
+                    '%s|%s|edit leaked into the label' % (prop, op),
+                    '%s(%s) changed the label image, which no operation '
+                    'and no cart address 0x0000-0x42ff addresses' % (
+                        op, _brief(a)), step)
+                label0 = bytes(g.label._data)
             if outcome == 'ok' and '.get_' in op and \
                     isinstance(real, (list, tuple)):
                 if step % 2 and isinstance(real, list):
@@ -924,7 +1002,13 @@ def shrink(sc):
 
 
 def _shrink_args(op, a):
-    if op == 'gfx.set_sprite':
+    if op == 'gfx.set_sprite' and isinstance(a['sprite'], dict):
+        seed, wd, ht = a['sprite']['$rows']
+        for w2, h2 in ((wd, ht // 2), (wd // 2, ht), (wd, ht - 1),
+                       (wd - 1, ht)):
+            if w2 > 0 and h2 > 0:
+                yield dict(a, sprite={'$rows': [seed, w2, h2]})
+    elif op == 'gfx.set_sprite':
         spr = a['sprite']
         for c in core.ddmin_list(spr):
             yield dict(a, sprite=c)
